@@ -7,6 +7,12 @@ Depth-1 state space, enumerated completely (no sampling):
      L = 4 quick / 5 thorough, plus every longer string up to length 7 (both tiers) over the
      12-symbol sub-alphabet that drives the scanner's state
      (both quotes, four brackets, 'E', a digit, a sign, ',', ':', ' ');
+     and every string of length <= 6 over the 8-symbol error-code alphabet  # N / A n a ( )
+     (the only family with lower-case letters); after every refused string the scanner is probed
+     for leaked state (tokenizing '' must give no tokens);
+ (d) for every entry of the tokenizer's ERROR_CODES table (plus the 7 documented codes) every
+     upper/lower-case assignment of its letters (2^k variants) in 8 operand contexts (alone,
+     after '1+', before '+1', argument, second argument, inside braces, after a space, doubled);
  (b) every distinct formula text `Cell.formula` returns for every cell of every readable fixture;
  (c) every formula text rendered from C08's generated expression families (mc.ref_formula, if
      present), every reference text the reader prints over C09's naming configurations
@@ -54,7 +60,33 @@ def alphabets(seed):
     return alpha, sub
 
 
-TASK_SUFFIX = {34: 3, 12: 4}  # free trailing positions per task (34^3 = 39 304, 12^4 = 20 736 strings)
+# 8-symbol family: the letters of one complete error code ('#N/A') in both cases plus brackets; it
+# is the only family with lower-case letters (error literals are matched against a table)
+ERR_ALPHA = ["#", "N", "/", "A", "n", "a", "(", ")"]
+ERR_LEN = 6
+TASK_SUFFIX = {34: 3, 12: 4, 8: 5}  # free trailing positions per task (34^3 = 39 304, 12^4 = 20 736, 8^5 = 32 768 strings)
+
+# part (d): every case variant of every error code, in every operand context
+DOCUMENTED_ERROR_CODES = ("#NULL!", "#DIV/0!", "#VALUE!", "#REF!", "#NAME?", "#NUM!", "#N/A")
+ERROR_CONTEXTS = {"alone": "{x}", "after-plus": "1+{x}", "before-plus": "{x}+1", "argument": "SUM({x})", "second-argument": "SUM(1,{x})",
+                  "braces": "{{{x}}}", "after-space": " {x}", "doubled": "{x}{x}"}
+
+
+def error_codes():
+    """The tokenizer's own table, plus the documented codes (so that an entry removed from the
+    table is still enumerated). Deterministic order."""
+    table = tuple(getattr(Tokenizer, "ERROR_CODES", ()))
+    return tuple(dict.fromkeys(tuple(c for c in table if isinstance(c, str)) + DOCUMENTED_ERROR_CODES))
+
+
+def case_variants(code):
+    """All 2^k upper/lower assignments of the k letters of `code`."""
+    pos = [i for i, ch in enumerate(code) if ch.isalpha()]
+    for bits in itertools.product((False, True), repeat=len(pos)):
+        chars = list(code)
+        for i, low in zip(pos, bits):
+            chars[i] = chars[i].lower() if low else chars[i].upper()
+        yield "".join(chars)
 
 
 # ------------------------------------------------------------------------------ oracle
@@ -203,12 +235,42 @@ def eval_text(s, must_accept=False, where=None):
     return "accepted", ()
 
 
+def _silently(text):
+    try:
+        Tokenizer(text)
+    except Exception:  # noqa: BLE001 - only used to re-create a history
+        pass
+
+
+def probe_leak(rejected):
+    """The statement holds for every string whatever was tokenized before. Called right after
+    `rejected` was refused: tokenizing the empty string must now give no tokens. (The probe also
+    shows that the next string of the enumeration starts from a clean tokenizer.)
+    -> [(ident, detail)]"""
+    try:
+        items = Tokenizer("").items
+    except Exception as e:  # noqa: BLE001
+        return [({"mechanism": "isolation", "class": "empty-input-raises-after-refusal", "escaped": type(e).__name__},
+                 f"after Tokenizer({rejected!r}) was refused, Tokenizer('') raises {type(e).__name__}: {e}")]
+    if items:
+        return [({"mechanism": "isolation", "class": "state-leaks-after-refusal"},
+                 f"after Tokenizer({rejected!r}) was refused, Tokenizer('') yields tokens {[t.value for t in items]!r}: scanner state "
+                 "of the refused formula leaks into the next one, whose token texts then do not reproduce its input")]
+    return []
+
+
 def eval_case(case):
     """case = small JSON value. -> (outcome, failures, text)"""
     kind = case["kind"]
     if kind == "string":
+        if case.get("after") is not None:  # the string evaluated immediately before, in the same process
+            _silently(case["after"])
         out, fails = eval_text(case["text"])
         return out, fails, case["text"]
+    if kind == "leak":
+        _silently(case["text"])
+        fails = probe_leak(case["text"])
+        return ("leaked" if fails else "clean"), fails, case["text"]
     if kind == "reader":
         out, fails = eval_text(case["text"], True, {"part": case["part"], "origin": case["origin"]})
         return out, fails, case["text"]
@@ -231,6 +293,9 @@ def work_strings(task):
     out_count = {}
     n = 0
     first = None
+    prev = None
+    lower = 0
+    probes = 0
     for tup in itertools.product(alpha, repeat=free):
         s = prefix + "".join(tup)
         n += 1
@@ -238,16 +303,54 @@ def work_strings(task):
         out_count[out] = out_count.get(out, 0) + 1
         if fails:
             for ident, detail in fails:
-                part.fail(ident, detail, {"kind": "string", "text": s})
+                part.fail(ident, detail, {"kind": "string", "text": s, "after": prev})
         elif first is None and out == "accepted+quoted":
             first = s
+        if out[0] != "a":  # refused (or escaped): the next formula must start from a clean scanner
+            probes += 1
+            for ident, detail in probe_leak(s):
+                part.fail(ident, detail, {"kind": "leak", "text": s})
+        if s != s.upper():
+            lower += 1
+        prev = s
     part.count("evaluations", n)
+    part.count("isolation_probes_after_refusal", probes)
+    part.count(f"strings_alphabet{len(alpha)}_with_lower_case", lower)
     part.count(f"strings_alphabet{len(alpha)}_len{len(prefix) + free}", n)
     for k, v in out_count.items():
         part.outcome(k, v)
     if first is not None:
         part.sample({"part": "a", "accepted_with_quoted_segment": first})
     return part.dump()
+
+
+def work_error_codes(code):
+    """Part (d): every case variant of one error code in every operand context."""
+    part = Part()
+    n = 0
+    prev = None
+    for variant in case_variants(code):
+        for ctx, template in ERROR_CONTEXTS.items():
+            s = template.format(x=variant)
+            n += 1
+            out, fails = eval_text(s)
+            part.outcome(f"d:{out.split(':')[0]}")
+            for ident, detail in fails:
+                part.fail(dict(ident, part="d"), detail + f" [error code {code!r}, context {ctx}]", {"kind": "string", "text": s, "after": prev})
+            if out[0] != "a":
+                for ident, detail in probe_leak(s):
+                    part.fail(ident, detail, {"kind": "leak", "text": s})
+            elif variant != code:
+                part.count("d_accepted_non_canonical_case")
+            else:
+                part.count("d_accepted_canonical_case")
+            prev = s
+    part.count("evaluations", n)
+    part.count("d_error_code_strings", n)
+    part.count("d_error_codes")
+    d = part.dump()
+    d["texts"] = {}
+    return d
 
 
 def string_tasks(alpha, lengths):
@@ -298,6 +401,9 @@ def judge_reader_text(run_or_part, text, part_name, origin, loc=None):
     for ident, detail in fails:
         run_or_part.fail(ident, detail + (f" [{loc}]" if loc else ""), {"kind": "reader", "text": text, "part": part_name, "origin": origin})
     run_or_part.outcome(f"{part_name}:{out}")
+    if out[0] != "a":
+        for ident, detail in probe_leak(text):
+            run_or_part.fail(ident, detail, {"kind": "leak", "text": text})
     # the translated spelling is only held to the universal part of the statement
     t2 = translated(text)
     if t2 != text:
@@ -305,6 +411,9 @@ def judge_reader_text(run_or_part, text, part_name, origin, loc=None):
         run_or_part.count(f"{part_name}_translated_spellings")
         for ident, detail in fails2:
             run_or_part.fail(ident, detail, {"kind": "string", "text": t2})
+        if out2[0] != "a":
+            for ident, detail in probe_leak(t2):
+                run_or_part.fail(ident, detail, {"kind": "leak", "text": t2})
     return out
 
 
@@ -412,6 +521,9 @@ def work_api_doc(task):
         out, fails = eval_text(text, True, where)
         for ident, detail in fails:
             part.fail(ident, detail + f" [label {label!r}, duplicated={dup}, written as {SHAPES[shape]!r}]", case)
+        if out[0] != "a":
+            for ident, detail in probe_leak(text):
+                part.fail(ident, detail, {"kind": "leak", "text": text})
         part.count("c_api_texts")
         part.count("evaluations")
         part.outcome(f"c:{out}")
@@ -473,6 +585,9 @@ def main():
     n_slow = len(tasks)
     tasks += [(work_strings, t) for t in string_tasks(alpha, range(0, L + 1))]
     tasks += [(work_strings, t) for t in string_tasks(sub, range(L + 1, LSUB + 1))]
+    tasks += [(work_strings, t) for t in string_tasks(ERR_ALPHA, range(0, ERR_LEN + 1))]
+    codes = error_codes()
+    tasks += [(work_error_codes, code) for code in codes]
 
     fixture_texts = {}
     gen_texts = set()
@@ -539,6 +654,15 @@ def main():
     run.floor(f"all {n_full} strings of length <= {L} over the 34-symbol alphabet were evaluated", got_full == n_full)
     run.floor(f"all {n_sub} strings of length {L + 1}..{LSUB} over the 12-symbol sub-alphabet were evaluated", got_sub == n_sub)
     o = run.outcomes
+    n_err = sum(8**k for k in range(ERR_LEN + 1))
+    got_err = sum(v for k, v in c.items() if k.startswith("strings_alphabet8_len"))
+    run.floor(f"all {n_err} strings of length <= {ERR_LEN} over the 8-symbol error-code alphabet {''.join(ERR_ALPHA)} were evaluated", got_err == n_err)
+    n_d = sum(2 ** sum(ch.isalpha() for ch in code) for code in codes) * len(ERROR_CONTEXTS)
+    run.floor(f"part (d): all {n_d} strings (case variants of {len(codes)} error codes x {len(ERROR_CONTEXTS)} contexts) were evaluated, "
+              "the canonical spellings were accepted in >= 6 contexts each", c["d_error_code_strings"] == n_d and len(codes) >= 7
+              and c["d_accepted_canonical_case"] >= len(codes) * 6)
+    run.floor("the scanner was probed for leaked state after every refused string of parts (a) and (d)",
+              c["isolation_probes_after_refusal"] >= sum(v for k, v in o.items() if k.startswith("rejected:")))
     run.floor("part (a) produced accepted, rejected and quoted-accepted strings", o["accepted"] > 0 and o["accepted+quoted"] > 0 and any(k.startswith("rejected:") for k in o))
     run.floor(">= 3 distinct rejection sites of the tokenizer (of the four reachable: operand text before a quote/#/{, bracket "
               "mismatch, bad error code, unterminated string) were reached in part (a)", len([k for k in o if k.startswith("rejected:")]) >= 3)
@@ -562,13 +686,16 @@ def main():
                "the label classes x prefix present/absent through the public write path")
     accepted = o["accepted"] + o["accepted+quoted"]
     cov = {
-        "distinct_nontrivial": got_full + got_sub + len(fixture_texts) + len(gen_texts) + len(ref_texts) + len(api_texts),
-        "rule": "distinct input strings: the two string families are disjoint by length, fixture/generated/API texts are "
-                "de-duplicated before counting; every one is run through the real Tokenizer and the full oracle",
+        "distinct_nontrivial": got_full + got_sub + c["strings_alphabet8_with_lower_case"] + c["d_error_code_strings"] + len(fixture_texts) + len(gen_texts) + len(ref_texts) + len(api_texts),
+        "rule": "distinct input strings: the 34- and 12-symbol families are disjoint by length, of the 8-symbol error-code family only "
+                "strings with a lower-case letter are counted (the others may repeat strings of the first family), part (d) strings "
+                "and fixture/generated/API texts are de-duplicated before counting; every one is run through the real Tokenizer "
+                "and the full oracle",
         "strings_accepted_in_part_a": accepted,
         "strings_with_quoted_segment_accepted_in_part_a": o["accepted+quoted"],
         "strings_rejected_in_part_a": sum(v for k, v in o.items() if k.startswith("rejected:")),
-        "bounds": {"alphabet34_max_len": L, "alphabet12_max_len": LSUB, "alphabet34": "".join(alpha), "alphabet12": "".join(sub)},
+        "bounds": {"alphabet34_max_len": L, "alphabet12_max_len": LSUB, "alphabet8_max_len": ERR_LEN, "alphabet8": "".join(ERR_ALPHA),
+                   "error_codes": list(codes), "error_code_contexts": list(ERROR_CONTEXTS.values()), "alphabet34": "".join(alpha), "alphabet12": "".join(sub)},
         "generated_source_present": have_gen,
         "reference_source_present": have_refs,
         "slow_tasks": n_slow,
